@@ -56,7 +56,28 @@ function scratch_dir() {
     return scratch;
 }
 
+let current_fail = null;
+process.on('uncaughtException', (e) => { if (current_fail) { current_fail(e); } else { console.error('uncaught outside a case', e); process.exit(4); } });
+
+function guarded(factory, ms) {
+    // a case that never completes (lost wake-up in the reader) or throws from an event handler is a result, not a driver failure
+    return new Promise((resolve) => {
+        let done = false;
+        let timer = setTimeout(() => {
+            if (!done) { done = true; current_fail = null; resolve({error: {name: 'HANG', type: 'hang', msg: 'no result within ' + ms + ' ms'}}); }
+        }, ms);
+        current_fail = (e) => { if (!done) { done = true; clearTimeout(timer); current_fail = null; resolve({error: err_info(e), uncaught: true}); } };
+        factory().then(
+            (r) => { if (!done) { done = true; clearTimeout(timer); current_fail = null; resolve(r); } },
+            (e) => { if (!done) { done = true; clearTimeout(timer); current_fail = null; resolve({error: err_info(e)}); } });
+    });
+}
+
 async function read_case(c) {
+    return guarded(() => read_case_inner(c), 3000);
+}
+
+async function read_case_inner(c) {
     let it;
     let pieces = null;
     let tmp = null;
@@ -84,6 +105,39 @@ async function read_case(c) {
         out.error = err_info(e);
     }
     return out;
+}
+
+function result_key(r) { return JSON.stringify(r); }
+
+async function readcomp_case(c) {
+    // Explorer over the stream's delivery: every composition of the byte string into successive chunks
+    let data = Buffer.from(c.hex, 'hex');
+    let n = data.length;
+    let base = await read_case(Object.assign({}, c, {mode: 'stream', pieces: n ? [c.hex] : []}));
+    let bulk = await read_case(Object.assign({}, c, {mode: 'bulk'}));
+    let basekey = result_key(base);
+    let diffs = [];
+    let ndiff = 0;
+    let executions = 0;
+    let chunks_delivered = 0;
+    let total = n > 0 ? (1 << (n - 1)) : 1;
+    for (let mask = 1; mask < total; mask++) {
+        let pieces = [];
+        let start = 0;
+        for (let j = 0; j < n - 1; j++) {
+            if ((mask >> j) & 1) { pieces.push(data.subarray(start, j + 1).toString('hex')); start = j + 1; }
+        }
+        pieces.push(data.subarray(start).toString('hex'));
+        let r = await read_case(Object.assign({}, c, {mode: 'stream', pieces: pieces}));
+        executions += 1;
+        chunks_delivered += pieces.length;
+        if (result_key(r) !== basekey) {
+            ndiff += 1;
+            if (diffs.length < 3) diffs.push({pieces: pieces, result: r});
+            if (r.error && r.error.name === 'HANG' && ndiff >= 2) break;   // do not wait for every hanging composition
+        }
+    }
+    return {base: base, bulk: bulk, executions: executions, chunks: chunks_delivered, ndiff: ndiff, diffs: diffs};
 }
 
 async function write_case(c) {
@@ -154,6 +208,7 @@ async function handle(c) {
             } catch (e) { return {error: err_info(e)}; }
         }
         case 'read': return await read_case(c);
+        case 'readcomp': return await readcomp_case(c);
         case 'write': return await write_case(c);
         case 'query': return await query_case(c);
         case 'header': {
